@@ -5,7 +5,6 @@ package main
 // path scope as (define-fun tN ...).
 
 import (
-	"runtime/debug"
 	"bufio"
 	"fmt"
 	"io"
@@ -34,9 +33,9 @@ func (k SolverKind) String() string {
 
 func parseSolverKind(s string) SolverKind {
 	switch s {
-	case "z3", "":
+	case "z3-old":
 		return SolverZ3
-	case "z3-new":
+	case "z3-new", "z3", "":
 		return SolverZ3New
 	case "cvc5":
 		return SolverCVC5
@@ -106,6 +105,10 @@ func (s *Solver) start() {
 		panic(fmt.Sprintf("cannot start solver %v: %v", s.kind, err))
 	}
 	s.cmd, s.in, s.out = cmd, in, bufio.NewReaderSize(out, 1<<16)
+	if d := os.Getenv("GOSYM_SMTLOG"); d != "" {
+		n := atomic.AddInt64(&dumpN, 1)
+		s.logf, _ = os.Create(fmt.Sprintf("%s/session%d.smt2", d, n))
+	}
 	s.dead = false
 	switch s.kind {
 	case SolverZ3, SolverZ3New:
@@ -113,7 +116,6 @@ func (s *Solver) start() {
 	default:
 		s.send("(set-logic ALL)\n")
 	}
-	s.send("(push 1)\n")
 	s.defined = map[int32]bool{}
 	s.declared = map[string]bool{}
 	s.declUF = map[string]bool{}
@@ -190,34 +192,13 @@ func (s *Solver) readReply(deadline time.Duration) (string, bool) {
 	}
 }
 
-// NewPath resets the path scope.
-func (s *Solver) NewPath() {
-	if s.dead || s.cmd == nil {
-		s.asserted = s.asserted[:0]
-		s.restart()
-		return
-	}
-	if s.sent == 0 && len(s.defined) == 0 && len(s.declared) == 0 {
-		// nothing was transmitted on the previous path
-		s.asserted = s.asserted[:0]
-		return
-	}
-	s.sent = 0
-	s.send("(pop 1)\n(push 1)\n")
-	s.defined = map[int32]bool{}
-	s.declared = map[string]bool{}
-	s.declUF = map[string]bool{}
-	s.axiomDone = map[string]int{}
-	s.asserted = s.asserted[:0]
-}
+// NewPath: nothing to do — definitions are global, assertions per query.
+func (s *Solver) NewPath() {}
 
 func (s *Solver) restart() {
 	atomic.AddInt64(&s.stats.Restarts, 1)
-	old := append([]*Term(nil), s.asserted...)
 	s.Close()
 	s.start()
-	s.asserted = old
-	s.sent = 0
 }
 
 // define emits declarations/definitions needed by t (post-order).
@@ -293,23 +274,24 @@ func kidsOf(t *Term) []*Term {
 	return []*Term{t.a, t.b, t.d}
 }
 
-// Assert adds t to the path scope.
-func (s *Solver) Assert(t *Term) {
-	s.asserted = append(s.asserted, t)
-}
+var dumpDir = os.Getenv("GOSYM_DUMP")
+var dumpN int64
 
-// flush sends assertions not yet transmitted.
-func (s *Solver) flush() {
-	for ; s.sent < len(s.asserted); s.sent++ {
-		s.assertNow(s.asserted[s.sent])
-	}
-}
-
-func (s *Solver) assertNow(t *Term) {
+// dumpQuery writes a standalone SMT-LIB2 file for the conjunction.
+func (s *Solver) dumpQuery(conj []*Term) {
+	saveDef, saveDecl, saveUF := s.defined, s.declared, s.declUF
+	s.defined, s.declared, s.declUF = map[int32]bool{}, map[string]bool{}, map[string]bool{}
 	var sb strings.Builder
-	s.define(t, &sb)
-	fmt.Fprintf(&sb, "(assert %s)\n", ref(t))
-	s.send(sb.String())
+	for _, c := range conj {
+		s.define(c, &sb)
+	}
+	for _, c := range conj {
+		fmt.Fprintf(&sb, "(assert %s)\n", ref(c))
+	}
+	sb.WriteString("(check-sat)\n")
+	s.defined, s.declared, s.declUF = saveDef, saveDecl, saveUF
+	n := atomic.AddInt64(&dumpN, 1)
+	os.WriteFile(fmt.Sprintf("%s/q%d.smt2", dumpDir, n), []byte(sb.String()), 0o644)
 }
 
 type Verdict int
@@ -322,32 +304,30 @@ const (
 
 func (v Verdict) String() string { return [...]string{"sat", "unsat", "unknown"}[v] }
 
-// Check decides path-scope ∧ extra.  If sat and wantModel, returns the model
-// over all declared variables (and UF applications, keyed "#<id>").
-func (s *Solver) Check(extra *Term, wantModel bool) (Verdict, Model) {
+// CheckSet decides the conjunction of conj.  Definitions of sub-terms are
+// global for the life of the solver process (terms are immutable), assertions
+// live inside one push/pop.  If sat, returns values of the variables whose ids
+// are in need (and of the uninterpreted applications defined so far).
+func (s *Solver) CheckSet(conj []*Term, need map[int32]bool) (Verdict, Model) {
 	t0 := time.Now()
 	defer func() { atomic.AddInt64(&s.stats.WallNS, int64(time.Since(t0))) }()
 	atomic.AddInt64(&s.stats.Queries, 1)
-	if qtrace {
-		fmt.Fprintf(os.Stderr, "QUERY from:\n%s\n", debug.Stack())
-	}
-	if s.dead {
+
+	if s.dead || s.cmd == nil || len(s.defined) > 60000 {
 		s.restart()
 	}
-	s.flush()
 	var sb strings.Builder
-	if extra != nil {
-		s.define(extra, &sb)
+	for _, c := range conj {
+		s.define(c, &sb)
 	}
 	sb.WriteString("(push 1)\n")
-	if extra != nil {
-		fmt.Fprintf(&sb, "(assert %s)\n", ref(extra))
+	for _, c := range conj {
+		fmt.Fprintf(&sb, "(assert %s)\n", ref(c))
 	}
 	sb.WriteString("(check-sat)\n")
 	s.send(sb.String())
 	reply, ok := s.readReply(time.Duration(s.timeoutMS)*time.Millisecond*2 + 5*time.Second)
 	if !ok {
-		// watchdog: kill and restart
 		atomic.AddInt64(&s.stats.Unknown, 1)
 		s.dead = true
 		s.restart()
@@ -363,7 +343,6 @@ func (s *Solver) Check(extra *Term, wantModel bool) (Verdict, Model) {
 	case reply == "unknown" || strings.HasPrefix(reply, "timeout"):
 		v = Unknown
 	default:
-		// (error ...) or anything else: inconclusive
 		atomic.AddInt64(&s.stats.Errors, 1)
 		fmt.Fprintf(os.Stderr, "solver reply: %q\n", reply)
 		s.dead = true
@@ -372,13 +351,16 @@ func (s *Solver) Check(extra *Term, wantModel bool) (Verdict, Model) {
 		return Unknown, nil
 	}
 	var m Model
-	if v == Sat && wantModel {
-		m = s.getModel()
+	if v == Sat {
+		m = s.getModel(conj, need)
 		if m == nil {
 			v = Unknown
 		}
 	}
 	s.send("(pop 1)\n")
+	if v == Unknown && dumpDir != "" {
+		s.dumpQuery(conj)
+	}
 	switch v {
 	case Sat:
 		atomic.AddInt64(&s.stats.Sat, 1)
@@ -390,20 +372,35 @@ func (s *Solver) Check(extra *Term, wantModel bool) (Verdict, Model) {
 	return v, m
 }
 
-func (s *Solver) getModel() Model {
+func (s *Solver) getModel(conj []*Term, need map[int32]bool) Model {
 	m := Model{}
 	var names []string
-	for n := range s.declared {
-		names = append(names, smtName(n))
-	}
-	var ufIDs []int32
-	for _, d := range s.ts.ufs {
-		for _, app := range d.apps {
-			if s.defined[app.id] {
-				names = append(names, fmt.Sprintf("t%d", app.id))
-				ufIDs = append(ufIDs, app.id)
-			}
+	for _, v := range s.ts.vars {
+		if need[v.id] && s.declared[v.name] {
+			names = append(names, smtName(v.name))
 		}
+	}
+	// uninterpreted applications occurring in the slice
+	seen := map[int32]bool{}
+	var walk func(t *Term)
+	walk = func(t *Term) {
+		if t == nil || seen[t.id] || !t.multi {
+			return
+		}
+		seen[t.id] = true
+		if t.op == opUF {
+			names = append(names, fmt.Sprintf("t%d", t.id))
+			for _, k := range t.kids {
+				walk(k)
+			}
+			return
+		}
+		walk(t.a)
+		walk(t.b)
+		walk(t.d)
+	}
+	for _, c := range conj {
+		walk(c)
 	}
 	if len(names) == 0 {
 		return m
@@ -411,6 +408,7 @@ func (s *Solver) getModel() Model {
 	s.send("(get-value (" + strings.Join(names, " ") + "))\n")
 	reply, ok := s.readReply(10 * time.Second)
 	if !ok {
+		fmt.Fprintf(os.Stderr, "get-value timed out; names=%v partial reply=%q\n", names, reply)
 		s.dead = true
 		return nil
 	}
